@@ -23,7 +23,9 @@ ASSUMPTIONS = [
     'frozen = the maskers plinio instantiates from its PITFrozen* classes; that set is cross-checked against the one '
     'derived from the architecture spec (strided Conv1d => rf and dilation; width group reaching a network input or '
     'output => features)',
-    'sampler behaviour is compared under a fixed torch seed in training mode (eval-mode sampling is C10)',
+    'sampler behaviour is compared under a fixed torch seed in training mode (eval-mode sampling is C10); the Gumbel '
+    'reference is torch.nn.functional.gumbel_softmax on the global torch RNG, as plinio uses it - a re-implementation '
+    'of the noise generation with another draw pattern would need the reference to be updated',
 ]
 COMPONENTS = {'PIT / MPS / SuperNet wrappers and all searchable layers, maskers, quantizer samplers, combiners': 'real',
               'abstract control state (trainable groups, sampler options)': 'reference model (ours)',
